@@ -1,4 +1,4 @@
-import PepperProofs.ConstraintGenTotal
+import PepperProofs.ConstraintGenTotalT
 /-!
 # C04 — designer constraint arrays are the exact closure of the specification
 
@@ -189,6 +189,68 @@ theorem arrays_exact_strand {stmts : List Stmt} {spec : Spec}
   obtain ⟨s, c, hs, hb⟩ := seeding_total_strand (load_wf hload)
   exact arrays_exact hload hs hb ha
 
+/-- **C04 for the structure layout**, for documents in which every non-empty strand occurs in some structure
+    (`Placed`): `arrays_exact` with the seeding hypotheses discharged (`seeding_total_struct`). -/
+theorem arrays_exact_struct {stmts : List Stmt} {spec : Spec}
+    (hload : Pil.load Generated.nupackTable stmts {} = .ok spec) (hp : Placed spec)
+    {a : Arrays} (ha : getConstraints .struct spec = .ok a) :
+    a.2.1.length = a.1.length ∧ a.2.2.length = a.1.length ∧
+    (∀ i : Nat, a.2.2[i]? = some none → a.1[i]? = some none ∧ a.2.1[i]? = some none) ∧
+    ∀ (i : Nat) (ch : Char), a.2.2[i]? = some (some ch) →
+      ∃ m v w, denOf .struct spec i = some m ∧ a.1[i]? = some v ∧ a.2.1[i]? = some w ∧
+        SemMin .struct spec a m false v ∧ SemMin .struct spec a m true w ∧
+        (∀ b, hasB (Generated.pilTable.maskC ch) b ↔
+          ∀ u q, ParityReach (Pil.denote spec) m.var q u →
+            okVar Generated.pilTable (Pil.denote spec) u (flipB (flipB b m.comp) q)) := by
+  obtain ⟨s, c, hs, hb⟩ := seeding_total_struct (load_wf hload) hp
+  exact arrays_exact hload hs hb ha
+
+/-- **`layout_exact`, structure layout.**  An index below the array length is non-blank exactly when it is
+    `start j + offT (strands of structure j) x` for a structure `j` and an offset `x` inside it, where `start j` is
+    the sum over the earlier structures of (their strands' lengths + `structGapStrands` blank each +
+    `structGapStructs - structGapStrands` more), and `offT` walks the strands of the structure (each followed by
+    `structGapStrands` blanks); that index denotes the `x`-th nucleotide of the structure (its strands'
+    nucleotides in order). -/
+theorem layout_exact_struct {stmts : List Stmt} {spec : Spec}
+    (hload : Pil.load Generated.nupackTable stmts {} = .ok spec)
+    {s : Seeds} {c : Cons} (hs : seeds .struct spec = .ok s) (hb : build s = .ok c)
+    {a : Arrays} (ha : getConstraints .struct spec = .ok a) :
+    (∀ i, i < a.2.2.length →
+      (a.2.2[i]? ≠ some none ↔ ∃ q ∈ enum spec.structs, ∃ x, x < q.2.len ∧
+        i = ((spec.structs.take q.1).map (fun so => widthT (structStrands spec so) +
+              (Generated.structGapStructs - Generated.structGapStrands))).sum + offT (structStrands spec q.2) x)) ∧
+    (∀ q ∈ enum spec.structs, ∀ x, x < q.2.len →
+      denOf .struct spec (((spec.structs.take q.1).map (fun so => widthT (structStrands spec so) +
+              (Generated.structGapStructs - Generated.structGapStrands))).sum + offT (structStrands spec q.2) x)
+        = (structNucsM spec q.2)[x]?) := by
+  have wf := load_wf hload
+  have ok := load_specCodes hload
+  have G := arrays_exact_graph pilLawful ok hs hb ha
+  have hst : ∀ i, i < a.1.length → (a.2.2[i]? ≠ some none ↔ i ∈ c.keys) := by
+    intro i hi
+    constructor
+    · intro h
+      cases Classical.em (i ∈ c.keys) with
+      | inl hk => exact hk
+      | inr hk => exact absurd (G.blank i hi hk).2.2 h
+    · intro hk h
+      obtain ⟨_, _, ch, hch, _⟩ := G.key i hi hk
+      rw [hch] at h; cases h
+  have startEq : ∀ q ∈ enum spec.structs, stStart spec q.1 =
+      ((spec.structs.take q.1).map (fun so => widthT (structStrands spec so) +
+        (Generated.structGapStructs - Generated.structGapStrands))).sum :=
+    fun q hq => stStart_closed spec (mem_enum_lt hq)
+  refine ⟨?_, ?_⟩
+  · intro i hi
+    rw [G.len_st] at hi
+    rw [hst i hi, key_iff_pos_struct wf ok hs hb (Nat.lt_of_lt_of_le hi G.le_P)]
+    constructor
+    · rintro ⟨q, hq, x, hx, rfl⟩; exact ⟨q, hq, x, hx, by rw [startEq q hq]⟩
+    · rintro ⟨q, hq, x, hx, rfl⟩; exact ⟨q, hq, x, hx, by rw [startEq q hq]⟩
+  · intro q hq x hx
+    rw [← startEq q hq]
+    exact denT_pos wf ok hs hb hq hx
+
 /-- **Same representative ⟺ forced equal**: two non-blank indices receive the same entry of `eq` exactly when the
     specification forces their nucleotides equal. -/
 theorem eq_iff_forced_equal {mode : Layout} {stmts : List Stmt} {spec : Spec}
@@ -204,8 +266,8 @@ theorem eq_iff_forced_equal {mode : Layout} {stmts : List Stmt} {spec : Spec}
 /-- What is not a theorem: that the returned arrays coincide with the output of the *executable* naive procedure
     `LinkSpec.specArrays` (saturation over the semantic link graph + `lineOf`, the line of nucleotides with blank
     separators).  Missing for that: correctness of the saturation procedure `classOf` with respect to `ParityReach`,
-    the closed form of the structure layout (`layout_exact` is proved for the strand layout), and that the seeding
-    never fails on accepted documents.  The equality itself is checked on every sampled small document
+    and the identification of `lineOf` with the two closed-form layouts (`layout_exact_strand`,
+    `layout_exact_struct`).  The equality itself is checked on every sampled small document
     (`pil-spec-arrays` = the independent Python oracle = the real arrays). -/
 def arrays_eq_specArrays_statement : Prop :=
   ∀ (stmts : List Stmt) (spec : Spec) (mode : Layout) (a : Arrays),
